@@ -6,7 +6,7 @@ OUT = "/verif/seeded/_matrix.json"
 res = json.load(open(OUT)) if os.path.exists(OUT) else {}
 REG = {"1b258a3": "C05", "de01f4b": "C06", "314fa4a": "C02", "5a13073": "C02", "d6ab1e3": "C11", "14c15fa": "C05", "c015c6a": "C05", "142b2d4": "C19"}
 jobs = []
-for d in sorted(glob.glob("/verif/seeded/C[0-9][0-9]-[0-9]")):
+for d in sorted(glob.glob("/verif/seeded/C[0-9][0-9]-[0-9]*")):
     pid, k = os.path.basename(d).split("-")
     jobs.append(("%s/%s" % (pid, k), d + "/patch.diff", pid))
 for f in sorted(glob.glob("/verif/seeded/_regress/revert-*.diff")):
